@@ -84,10 +84,19 @@ T_ImFinalize == /\ IsEv("im_finalize") /\ NoPanic
                 /\ IM_Finalize(E.res)
 T_ImDrop == IsEv("im_drop") /\ IM_Drop
 
+MaxXml == 10485760
 T_WFinalize == /\ IsEv("w_finalize") /\ NoPanic
                /\ ChkP(ENABLED W_Finalize(E.res, E.custom), {"C10"}, "empty-guid-accepted")
-               /\ ChkP((sc.guid # "" /\ ~sc.dead /\ ~E.custom) => IsOk(E.res), {"C10", "C01", "C04", "C06"}, "valid-call-rejected")
+               \* the reader accepts XML sections of at most 10 MiB; a file whose XML must be longer (E.text_lb = bytes of text
+               \* handed to the writer) may be refused by finalize -- and must be, or the library could not read its own file
+               /\ ChkP((sc.guid # "" /\ ~sc.dead /\ ~E.custom /\ E.text_lb <= MaxXml - 1048576) => IsOk(E.res), {"C10", "C01", "C04", "C06"}, "valid-call-rejected")
                /\ W_Finalize(E.res, E.custom)
+
+\* a finalized file too large to be recorded: the library must at least open what it wrote
+T_BigReadback == /\ IsEv("big_readback") /\ NoPanic
+                 /\ Chk(sc.fin, "S:readback-without-successful-finalize")
+                 /\ ChkP(IsOk(E.res), {"C10", "C01", "C04", "C06", "C12", "C14", "C19", "C03"}, "finalized-file-does-not-open")
+                 /\ UNCHANGED <<sc, file, res>>
 
 \* ------------------------------------------------------------------ the finalized file (C02, C01, C06)
 PcOk(img, L, pcnode, pc, i) ==
@@ -353,7 +362,7 @@ T_QPop ==
 ENext == \/ T_Reset \/ T_Panic \/ T_Scene \/ T_RHints \/ T_RSimpleCount \/ T_WNew \/ T_WCoord \/ T_WCreation \/ T_WExt \/ T_WBlob
          \/ T_PcNew \/ T_PcSet \/ T_PcPoints \/ T_PcPoint \/ T_PcFinalize \/ T_PcDrop
          \/ T_ImNew \/ T_ImSet \/ T_ImAdd \/ T_ImFinalize \/ T_ImDrop
-         \/ T_WFinalize \/ T_Final
+         \/ T_WFinalize \/ T_Final \/ T_BigReadback
          \/ T_ROpen \/ T_RReport \/ T_RRaw \/ T_RBlob \/ T_RXml
 TNext == (ENext /\ UNCHANGED qs) \/ T_QNew \/ T_QAdvance \/ T_QPop
 
